@@ -292,6 +292,46 @@ def run(ctx):
     ctx.add_exploration('asceprovider.AssociationRequester._request', request_case, res,
                         target='asceprovider.AssociationRequester._request')
 
+    # ------------------------------------------------------------------ (B0) build_pres_context_def_list, one entry
+    # Supplementary to (B) (which treats the table as an arbitrary sequence of items): a table with a single
+    # entry under an ARBITRARY id in the protocol's range and two configured transfer syntaxes gives exactly one
+    # presentation-context item, carrying that id, that abstract syntax and those transfer syntaxes in order --
+    # whatever the id (a filter on ids, which leaves the general exploration's supported subset, is seen here).
+    def single_entry_case(p):
+        label = 'asceprovider.build_pres_context_def_list[single entry]'
+        ob = obl(p, label)
+        k = p.fresh_int('context_id')
+        p.assume(z3.And(k >= 1, k <= 255, k % 2 == 1))
+        sop = p.fresh('sop_class', smt.Str)
+        ts1, ts2 = p.fresh('ts1', smt.Str), p.fresh('ts2', smt.Str)
+        entry = NamedTupleVal(PCD, (k, sop, ListVal([ts1, ts2])))
+        table = DictVal()
+        table.base = lambda it2, key: (True, entry) if it2.p.branch(int_term(key) == k) else (False, None)
+        table.items_seq = ListVal([(k, entry)])      # its items in iteration order: the one entry
+        table.size = 1
+        try:
+            gen = it.call(asc.attrs['build_pres_context_def_list'], [table], {})
+            items = []
+            it.iterate(gen, items.append)
+        except Raised as r:
+            return noexc(p, label, r)
+        ob('each-configured-class-is-proposed-once', len(items) == 1)
+        if len(items) == 1:
+            x = items[0]
+            good = isinstance(x, Obj) and x.cls.name == 'PresentationContextItemRQ'
+            ob('is-a-presentation-context-item', good)
+            if good:
+                ob('carries-its-table-id', ops.values_equal(it, it.getattr(x, 'context_id'), k))
+                ob('carries-its-abstract-syntax', ops.values_equal(it, it.getattr(it.getattr(x, 'abs_sub_item'), 'name'), sop))
+                tss = it.getattr(x, 'ts_sub_items')
+                names = [it.getattr(t, 'name') for t in tss.items] if isinstance(tss, ListVal) else None
+                ob('carries-the-configured-transfer-syntaxes-in-order', names is not None and len(names) == 2 and
+                   ops.values_equal(it, names[0], ts1) is not False and ops.values_equal(it, names[1], ts2) is not False
+                   and z3.And(names[0] == ts1, names[1] == ts2))
+        p.outcome = 'normal'
+    ctx.add_exploration('asceprovider.build_pres_context_def_list[single entry]', single_entry_case, res,
+                        target='asceprovider.build_pres_context_def_list')
+
     # ------------------------------------------------------------------ (B') request(): the caller of _request
     # _request takes the two entities as arguments; request() is what decides which is which.  _request is a
     # recording stub here (its contract is (B)+(C)): it is called once with the local entity first and the
